@@ -1759,7 +1759,11 @@ class Compiler(compiler.Compiler):
                                          module_name,
                                          compiled_members)
 
-        if sort_by_tag:
+        # An untagged CHOICE component has no tag of its own: its place
+        # depends on the alternative chosen (X.690 10.3), so there is
+        # no static order.
+        if sort_by_tag and all(member.tag is not None
+                               for member in compiled_members):
             compiled_members = sorted(compiled_members, key=get_tag_no_encoding)
 
         return compiled_members, additions
